@@ -9,12 +9,15 @@ from harness.core import REAL_AXIOMS
 
 PROP = "C15"
 
-_P = "C15_"
-_FULL = ["rosenbrock", "ackley", "sphere", "schwefel", "easom", "eqconstr", "griewank", "michalewicz", "perm",
-         "rastrigin", "sixhump", "schubert", "zakharov", "xsy1", "xsy2", "xsy3", "booth", "gramacylee", "alpine",
-         "synthetic1d", "synthetic2d", "synthetic5d", "synthetic10d"]
-THEOREMS = {"Artap.Props.C15": [_P + n + s for n in _FULL for s in ("_opt_value", "_opt_bound")] +
-            [_P + "well_defined", _P + "all_benchmarks"]}
+THEOREMS = {"Artap.Props.C15": [
+    "C15_analytic_benchmarks",        # 12 classes, both clauses, every dimension: hand proofs (Reals axioms only)
+    "C15_interval_benchmarks",        # 10 classes, both clauses: Interval branch-and-bound + induction / case analysis
+    "C15_xsy3_benchmark",             # the randomised XinSheYang3, for every tape of draws in [0,1]
+    "C15_exact_optima",               # exact optimum values where the documented coordinates are exact reals
+    "C15_well_defined",               # denominators non-zero, sqrt arguments non-negative
+    "C15_schwefel_every_dimension",   # Schwefel without the dimension bound: >= -3.3e-7 per coordinate
+    "C15_prefix_code_refuted",        # the pre-fix formulas / declarations of F3, F4, F5 violate the clauses
+]}
 
 # Reals axioms + what the Interval tactic's computations rest on (primitive 63-bit integers and floats of the
 # standard library, used by Interval's fast arithmetic); every name is declared by Coq's standard library
@@ -131,6 +134,8 @@ def run(ctx):
     import artap.benchmark_functions as bf
     import artap.benchmark_robust as br
     from artap.individual import Individual
+    import time as _time
+    t_start = _time.process_time()
     rng = ctx.rng
     mods = {"bf": bf, "br": br}
     tape = UniformTape(rng)
@@ -138,7 +143,9 @@ def run(ctx):
 
     n_random = ctx.pick(30, 30)
     n_near = ctx.pick(10, 10)
-    goals_per_cfg = ctx.pick(3, 10 ** 9)     # besides the optimum; thorough: every point
+    goals_per_cfg = ctx.pick(3, 20)          # Coq point goals per configuration besides the optimum
+    # Perm in 30 dimensions: 900 terms with powers up to 30 - a point goal costs 30 s; its formula is tied in n <= 10
+    slow_cfg_goals = {("Perm", 30): ctx.pick(0, 2)}
     n_search_rand = ctx.pick(150, 1500)
     n_search_local = ctx.pick(120, 600)
 
@@ -349,7 +356,9 @@ def run(ctx):
             if cls == "EqualityConstr":   # make sure both branches are tied
                 on = [i for i in rest if evaluated[i][0].startswith("on_constraint") or evaluated[i][0] == "threshold"]
                 chosen += on[:2]
-            chosen += rest[:goals_per_cfg]
+            chosen += rest[:slow_cfg_goals.get((cls, n), goals_per_cfg)]
+            if (cls, n) in slow_cfg_goals and not ctx.thorough:
+                chosen = []
             for i in sorted(set(chosen)):
                 kind, x, y_py, dr_py, y_np, dr_np = evaluated[i]
                 if y_py is not None:
@@ -411,25 +420,65 @@ def run(ctx):
                          cls, n, "better_than_optimum", {"class": cls, "dimension": n, "x": best[1]}, observed=best[0],
                          required="%s %r" % (">=" if direction == "minimize" else "<=", opt))
 
+    # ---- purity probe: the models are functions of the point, the implementation must be one too: no state shared
+    # between overlapping evaluations on one problem object (parallel evaluation runs threads on a shared problem),
+    # no mutation of the caller's list / numpy array
+    from harness import core as _core
+    stats["purity_probes"] = 0
+    tape.force = 0.5                # XinSheYang3: the same draw in every (nested) call, so that results are comparable
+    for spec in SPECS:
+        cls, modn, fcoq, bcoq, ndim = spec
+        klass = getattr(mods[modn], cls)
+        for d in (([5] if cls == "Michaelwicz" else ctx.pick([3], [2, 3, 10])) if ndim else [None]):
+            p = klass(**{"dimension": d}) if ndim else klass()
+            box = [(float(q["bounds"][0]), float(q["bounds"][1])) for q in p.parameters]
+
+            def call(vec, p=p):
+                ind = Individual([0.0])
+                ind.vector = vec
+                return list(p.evaluate(ind))
+            for _ in range(ctx.pick(2, 6)):
+                xa, xb = [[rng.uniform(lo, hi) for lo, hi in box] for _ in range(2)]
+                if cls == "EqualityConstr":     # on the constraint manifold, where the value is not the constant 0
+                    xa, xb = [[abs(c) / math.sqrt(sum(v * v for v in q)) for c in q] for q in (xa, xb)]
+                    xa, xb = [[clip(c, 0.0, 1.0) for c in q] for q in (xa, xb)]
+                stats["purity_probes"] += 1
+                ctx.count(("purity", cls, len(box), tuple(xa), tuple(xb)))
+                try:
+                    whys = _core.purity_probe(call, xa, xb, rng)
+                except Exception as e:
+                    whys = ["purity probe: evaluate raises %r" % (e,)]
+                for why in whys:
+                    fail("%s: %s" % (cls, why), cls, len(box), "bench_purity", {"class": cls, "dimension": len(box), "x": xa, "other": xb})
+                    ctx.mismatches.append({"what": "implementation is not a function of the point (the model is): " + why,
+                                           "correspondence": "c15-purity", "case": {"class": cls, "dimension": len(box), "x": xa, "other": xb}})
+    tape.force = None
+
+    stats["implementation_cpu_s"] = round(_time.process_time() - t_start, 2)
     total = len(goals)
-    shard = max(8, min(60, -(-total // 16)))
+    # `Require Import Interval` costs ~7 s of CPU per generated file: few, large shards
+    shard = max(8, -(-total // ctx.pick(6, 16)))
     ctx.coq_goals("c15", HEADER, goals, meta, shard=shard, timeout=ctx.pick(600, 1800))
     ctx.rule = ("one case = one evaluate() call on a box point of one (class, dimension): documented optimum, corners, mid and edge points, "
                 "zero, half-integer lattice points, %d uniform points, %d points near the optimum (EqualityConstr: also the constraint manifold "
                 "and both sides of its isclose threshold), each as Python floats and as numpy.float64; distinct = distinct (class, dimension, point, "
                 "coordinate type); Coq point goals: the optimum plus %s of the other points per configuration, and the declared data of every configuration"
-                % (n_random, n_near, "all" if ctx.thorough else str(goals_per_cfg)))
+                % (n_random, n_near, str(goals_per_cfg)))
     stats["coq_goals"] = total
     stats["goal_shard_size"] = shard
     ctx.extra.update(stats)
 
 
 LEVEL_TEXT = ("Machine-checked Coq theorems (Reals; hand proofs plus the verified Interval branch-and-bound) over real-valued models of all "
-              "23 single-objective benchmark classes, mirroring the coded formulas: for every accepted dimension and every point of the declared "
-              "box, the documented optimum is taken within 1e-3 at the documented coordinates and no box point is better than it by more than "
-              "1e-3 in the declared direction; denominators and sqrt arguments are shown well defined on the box. The models (formula, box, "
-              "direction, optimum, coordinates, accepted dimensions) are tied to the code on every run by Interval point goals at sampled points "
-              "for Python and numpy float inputs, and a direct oracle searches the implementation for a better point.")
-LEVEL_NOTE = ("see notes/C15.md for the per-class list of proved clauses; dimension bounds that are part of the statements: Schwefel n <= 3000 "
-              "(alpha is truncated: per-coordinate minimum -2.7e-7), EqualityConstr n <= 10^6 (isclose slack 1e-9). 'Returns one finite float' is "
-              "sampled by the oracle only (the R model cannot overflow). Correspondence is sampled; theorems are unbounded in the box.")
+              "23 single-objective benchmark classes, mirroring the coded formulas: for every accepted dimension (induction over the vector) and "
+              "every point of the declared box, the documented optimum is taken within 1e-3 at the documented coordinates (exactly where they are "
+              "exact reals) and no box point is better than it by more than 1e-3 in the declared direction; denominators and sqrt arguments are "
+              "shown well defined on the box. The models (formula, box, direction, optimum, coordinates, accepted dimensions) are tied to the code "
+              "on every run by Interval point goals at sampled points for Python and numpy float inputs; a direct oracle searches the "
+              "implementation for a better point and probes re-entrancy / argument mutation.")
+LEVEL_NOTE = ("All 23 classes fully proved, both clauses (C15_analytic_benchmarks: 12 classes by hand; C15_interval_benchmarks: 10 classes; "
+              "C15_xsy3_benchmark for every tape of draws in [0,1]); nothing partial. Dimension bounds that are part of the statements: Schwefel "
+              "n <= 3000 (alpha is truncated in the code: the minimum is -2.72e-7 per coordinate, so the documented 0 is met within 1e-3 only up to "
+              "n = 3676; C15_schwefel_every_dimension gives the bound -3.3e-7 n for every n), EqualityConstr n <= 10^6 (isclose slack 1e-9). "
+              "Michalewicz 5/10 and Schubert document no coordinates: the value clause is existential there. 'Returns one finite float' is sampled by "
+              "the oracle only (the R model cannot overflow). Correspondence is sampled; theorems are unbounded in the box. See notes/C15.md.")
